@@ -537,7 +537,7 @@ func mutate(r *vh.Rand, fs []field, kind string) []field {
 		}
 		return r.Intn(len(fs))
 	}
-	switch r.Pick(10, 8, 8, 8, 8, 8, 8, 6, 6, 6, 6, 6, 6, 6) {
+	switch r.Pick(10, 8, 8, 8, 8, 8, 8, 6, 6, 6, 6, 6, 6, 6, 10) {
 	case 0: // duplicate pseudo-field at any position; the first copy may be empty (the repaired defect)
 		var ps []int
 		for i, f := range fs {
@@ -614,8 +614,51 @@ func mutate(r *vh.Rand, fs []field, kind string) []field {
 		return insertAt(fs, r.Intn(2), field{":status", "200"})
 	case 12: // random junk field
 		return insertAt(fs, pos, field{randBytes(r, r.Intn(6), true), randBytes(r, r.Intn(6), true)})
-	default: // trailer-forbidden names (matter for trl)
+	case 13: // trailer-forbidden names (matter for trl)
 		return insertAt(fs, pos, field{pick(r, probeNames[:28]), randBytes(r, r.Intn(5), false)})
+	default: // request pseudo-header rules: CONNECT / extended CONNECT / :protocol / emptied pseudo values
+		set := func(name, v string) {
+			for i := range fs {
+				if fs[i].Name == name {
+					fs[i].Value = v
+					return
+				}
+			}
+			fs = insertAt(fs, 0, field{name, v})
+		}
+		del := func(name string) {
+			for i := range fs {
+				if fs[i].Name == name {
+					fs = append(fs[:i:i], fs[i+1:]...)
+					return
+				}
+			}
+		}
+		switch r.Intn(7) {
+		case 0:
+			set(":method", "CONNECT")
+		case 1:
+			set(":protocol", pick(r, []string{"websocket", "", "x"}))
+		case 2:
+			set(":method", "CONNECT")
+			set(":protocol", "websocket")
+			del(pick(r, []string{":scheme", ":path", ":authority", ":none"}))
+		case 3:
+			set(pick(r, []string{":path", ":authority", ":method", ":scheme"}), "")
+		case 4:
+			set(":method", "CONNECT")
+			del(":path")
+			del(":scheme")
+			if r.Bool() {
+				del(":authority")
+			}
+		case 5:
+			set(":method", "CONNECT")
+			set(":path", "")
+		default:
+			del(pick(r, reqPseudo))
+		}
+		return fs
 	}
 }
 
